@@ -223,7 +223,8 @@ func (x *Exec) unknownCall(st *State, fr *Frame, what string, sig *types.Signatu
 		x.dryEff.all = true
 	}
 	// havoc the whole heap: nothing is known afterwards
-	for key, a := range st.heap {
+	for _, key := range sortedKeysT(st.heap) {
+		a := st.heap[key]
 		if strings.HasPrefix(key, "S|") {
 			continue
 		}
@@ -422,7 +423,8 @@ func (x *Exec) applyModifies(post, pre *State, fr *Frame, env *Env, m *SExpr, wh
 	case "ident":
 		switch m.Name {
 		case "everything":
-			for key, a := range post.heap {
+			for _, key := range sortedKeysT(post.heap) {
+				a := post.heap[key]
 				if strings.HasPrefix(key, "S|") {
 					continue
 				}
